@@ -95,6 +95,7 @@ type Runner struct {
 	Cond                  map[string]bool // every oracle clause that has fired in this history
 	RejectedLeftPending   bool            // a rejected reconfiguration left undelivered changes behind
 	RemoveLiveLeftPending bool            // a remove-live step left undelivered changes behind (KF9)
+	LaggingCache          bool            // after a restart the cache recorded an older value than the runtime had (KF7)
 	Deaf                  bool            // events are not delivered until the next sync step (see doLifecycle)
 	RemovedLive           bool            // the last remove step removed a container that had not been stopped
 	RaceBadCfg            *Config         // race mode: configuration the policy rejects only after having started to apply it
@@ -152,6 +153,10 @@ func (r *Runner) Violate(prop, check, sig, format string, args ...interface{}) {
 	}
 	if r.StaleRestarted && (prop == "C01" || prop == "C03" || prop == "C04" || prop == "C05" || prop == "C12") {
 		sig += ":after-stale-cache-restart"
+	} else if r.LaggingCache && prop == "C12" {
+		// the newest cache file was itself older than the runtime's truth (seen as an unmanaged-field mismatch after the
+		// restart): the identical-update echo then tells an opted-out container that older value (KF7)
+		sig += ":after-restart-with-lagging-cache"
 	}
 	// Violations that can be mere consequences of a known-defective state the history has
 	// already been through carry that state in their signature (the defects themselves -
